@@ -165,7 +165,9 @@ def handle (j : Json) : Except String Json := do
     let removed ← (← optArr j "removed").mapM (·.getNat?)
     let genExcl ← (← optArr j "genexcl").mapM ixnOf
     let targets ← targetsOf nodes j
-    let touched : Touched := ⟨keys, attrs, modNamedAtoms ff spec targets, removed⟩
+    let renames ← (← optArr j "renames").mapM fun a => do
+      pure ((← (← a.getArrVal? 0).getNat?), (← (← a.getArrVal? 1).getStr?))
+    let touched : Touched := ⟨keys, attrs, modNamedAtoms Tables.proteinResnames ff spec renames targets, removed⟩
     let all := checkFrame spec obs touched genExcl
     let diffs := all.filter (·.1 != "resid") ++ all.filter (·.1 == "resid")
     pure (okJson [("diffs", toJson (diffs.map (·.2))), ("cats", toJson (diffs.map (·.1)).eraseDups)])
